@@ -231,3 +231,22 @@ Fixpoint has_type_b (fuel : nat) (e : env) (t : ty) (v : val) : bool :=
       end
   | _ => scalar_ty t && sc_typed_b t v
   end end.
+
+(* ---------- static bound on the recursion depth of values of a (non-recursive) type ---------- *)
+Fixpoint tfin (fuel : nat) (e : env) (t : ty) : bool :=
+  match fuel with O => false | S f =>
+  match t with
+  | TVec x | TArr _ x => tfin f e x
+  | TMap a b => tfin f e a && tfin f e b
+  | TStruct sid => forallb (fun fd => tfin f e (fty fd)) (fields_of e sid)
+  | _ => true
+  end end.
+Definition tmax (g : ty -> nat) (fds : schema) : nat := fold_right (fun fd m => Nat.max (g (fty fd)) m) 0%nat fds.
+Fixpoint tneed (fuel : nat) (e : env) (t : ty) : nat :=
+  match fuel with O => 0%nat | S f =>
+  match t with
+  | TVec x | TArr _ x => 3 + tneed f e x
+  | TMap a b => 3 + Nat.max (tneed f e a) (tneed f e b)
+  | TStruct sid => 4 + length (fields_of e sid) + tmax (tneed f e) (fields_of e sid)
+  | _ => 3
+  end end.
